@@ -53,7 +53,12 @@ def midpoint_cases(rng, mant, expb, n):
             if c0 > M or c0 < 1:
                 continue
             exact = x.denominator == 1
-            for d in ((0,) if exact and rng.random() < 0.5 else (-2, -1, 0, 1, 2)):
+            ds = (0,) if exact and rng.random() < 0.5 else (-2, -1, 0, 1, 2)
+            if rng.random() < 0.5:
+                # a distance from the midpoint whose low 32 / 64 bits vanish (inexactness judged from a truncated word)
+                j = rng.choice((1, 2, 3, rng.randrange(1, 1 << 20)))
+                ds = ds + ((j << 64), -(j << 64), (j << 32), -(j << 32), (j << 64) + 1, (j << 96))
+            for d in ds:
                 c = c0 + d
                 if 0 < c <= M:
                     out.append((c if rng.random() < 0.5 else -c, s))
